@@ -192,11 +192,74 @@ type caseResult struct {
 	site  string
 }
 
+const realmPath = "gno.land/r/c11user/pkg"
+
 func (e *env) runCase(c Case) (res caseResult) {
-	lastRaw = nil
+	base := e.ctx.WithMultiStore(e.ms.MultiCacheWrap()) // throw-away state of this case
 	files := []*std.MemFile{{Name: "main.gno", Body: c.Src}}
-	ctx := e.ctx.WithMultiStore(e.ms.MultiCacheWrap()).WithGasMeter(stypes.NewGasMeter(c.Gas))
-	ctx = e.vmk.MakeGnoTransactionStore(ctx)
+	addPkg := func(ctx sdk.Context) error {
+		fs := append([]*std.MemFile{{Name: "gnomod.toml", Body: gno.GenGnoModLatest(realmPath)}}, files...) // sorted by name
+		msg := vm.MsgAddPackage{Creator: e.addr, Package: &std.MemPackage{Name: "pkg", Path: realmPath, Files: fs}}
+		if err := msg.ValidateBasic(); err != nil {
+			return err
+		}
+		return e.vmk.AddPackage(ctx, msg)
+	}
+	switch c.Kind {
+	case kindRun:
+		return e.step(c.ID, base, c.Gas, false, func(ctx sdk.Context) error {
+			msg := vm.MsgRun{Caller: e.addr, Package: &std.MemPackage{Name: "main", Path: "", Files: files}}
+			if err := msg.ValidateBasic(); err != nil {
+				return err
+			}
+			_, err := e.vmk.Run(ctx, msg)
+			return err
+		})
+	case kindAddPkg:
+		return e.step(c.ID, base, c.Gas, false, addPkg)
+	case kindRealm:
+		// the package is added and COMMITTED to the case's state; every step then runs in its own transaction
+		// store (or query store) on that state, so what it touches is loaded back from the store
+		res = e.step(c.ID, base, c.Gas, true, addPkg)
+		if res.class != clOK {
+			return res
+		}
+		for _, st := range c.Steps {
+			op, arg, _ := strings.Cut(st, ":")
+			r := e.step(c.ID+" "+st, base, c.Gas, op == "call", func(ctx sdk.Context) error {
+				var err error
+				switch op {
+				case "call":
+					msg := vm.MsgCall{Caller: e.addr, PkgPath: realmPath, Func: arg}
+					if err = msg.ValidateBasic(); err != nil {
+						return err
+					}
+					_, err = e.vmk.Call(ctx, msg)
+				case "qeval":
+					_, err = e.vmk.QueryEval(ctx, realmPath, arg)
+				case "qjson":
+					_, err = e.vmk.QueryEvalJSON(ctx, realmPath, arg)
+				default:
+					panic("c11 harness: unknown step " + st)
+				}
+				return err
+			})
+			if r.class == clRuntimeFault || r.class == clOtherGoPanic {
+				r.msg = st + ": " + r.msg
+				return r
+			}
+			res = r
+		}
+		return res
+	}
+	panic("c11 harness: unknown case kind")
+}
+
+// step runs one message (or query) in a fresh transaction store on the state `base` and classifies how it
+// ended; commit: write the transaction store back to `base` when the message succeeded.
+func (e *env) step(id string, base sdk.Context, gas int64, commit bool, run func(ctx sdk.Context) error) (res caseResult) {
+	lastRaw = nil
+	ctx := e.vmk.MakeGnoTransactionStore(base.WithGasMeter(stypes.NewGasMeter(gas)))
 	var err error
 	var esc any
 	escStack := ""
@@ -209,25 +272,13 @@ func (e *env) runCase(c Case) (res caseResult) {
 				escStack = string(debug.Stack())
 			}
 		}()
-		switch c.Kind {
-		case kindRun:
-			msg := vm.MsgRun{Caller: e.addr, Package: &std.MemPackage{Name: "main", Path: "", Files: files}}
-			if err = msg.ValidateBasic(); err != nil {
-				return
-			}
-			_, err = e.vmk.Run(ctx, msg)
-		case kindAddPkg:
-			path := "gno.land/r/c11user/pkg"
-			files = append([]*std.MemFile{{Name: "gnomod.toml", Body: gno.GenGnoModLatest(path)}}, files...) // sorted by name
-			msg := vm.MsgAddPackage{Creator: e.addr, Package: &std.MemPackage{Name: "pkg", Path: path, Files: files}}
-			if err = msg.ValidateBasic(); err != nil {
-				return
-			}
-			err = e.vmk.AddPackage(ctx, msg)
+		err = run(ctx)
+		if err == nil && commit {
+			e.vmk.CommitGnoTransactionStore(ctx)
 		}
 	}()
 	if debugOn {
-		fmt.Fprintf(os.Stderr, "# %s: err=%v esc=%v raw=%v\n", c.ID, shortMsg(err), shortMsg(esc), lastRaw != nil)
+		fmt.Fprintf(os.Stderr, "# %s: err=%v esc=%v raw=%v\n", id, shortMsg(err), shortMsg(esc), lastRaw != nil)
 	}
 	if esc != nil {
 		cl := classifyRaw(esc)
@@ -301,15 +352,19 @@ func workerMain() {
 	if sf := os.Getenv("C11_SRCFILE"); sf != "" { // ad-hoc replay of one source file
 		b, _ := os.ReadFile(sf)
 		kind := kindRun
+		var steps []string
 		if strings.HasPrefix(string(b), "package pkg") {
 			kind = kindAddPkg
+			if st := os.Getenv("C11_STEPS"); st != "" { // e.g. "call:Show,qeval:G"
+				kind, steps = kindRealm, strings.Split(st, ",")
+			}
 		}
 		gas := int64(20_000_000)
 		if g, err := strconv.ParseInt(os.Getenv("C11_GAS"), 10, 64); err == nil {
 			gas = g
 		}
 		debugOn = true
-		res := e.runCase(Case{ID: sf, Kind: kind, Src: string(b), Gas: gas})
+		res := e.runCase(Case{ID: sf, Kind: kind, Src: string(b), Gas: gas, Steps: steps})
 		fmt.Printf("class=%s msg=%q site=%s\n", className[res.class], res.msg, res.site)
 		pprof.StopCPUProfile()
 		os.Exit(0)
